@@ -331,7 +331,7 @@ func init() {
 	lock := func(mode string) intrinsic {
 		return func(x *Exec, s *State, in ssa.Instruction, f *ssa.Function, args []Val) (Val, error) {
 			id := lockID(args[0])
-			if _, held := s.locks[id]; !held {
+			if _, held := s.locks[id]; !held && interferenceOn {
 				// other goroutines may have run while the lock was not held: what this lock guards is
 				// unknown again (a value read before the acquisition is stale)
 				x.havocGuardedBy(s, args[0])
